@@ -28,5 +28,6 @@ def main (args : List String) : IO UInt32 := do
   | ["tok"] => lineLoop stdin stdout Verif.Drv.Tok.step; return 0
   | ["transient"] => stateLoop stdin stdout Verif.Drv.Transient.stepModel none; return 0
   | ["core"] => stateLoop stdin stdout Verif.Drv.Core.stepLine {}; return 0
+  | ["coremon"] => stateLoop stdin stdout Verif.Drv.Core.monLine {}; return 0
   | ["c18mon"] => stateLoop stdin stdout Verif.Drv.Transient.stepMon {}; return 0
   | _ => IO.eprintln "usage: drv tok|transient|c18mon"; return 2
